@@ -17,6 +17,7 @@ TNext == /\ (CleanEofOnlyAfterCloseNotify /\ TruncationIsReported /\ NothingInve
             \/ IsEvent("error") /\ Error
             \/ IsEvent("caller_eof") /\ CallerEof
             \/ IsEvent("caller_error") /\ CallerError
+            \/ IsEvent("caller_unknown") /\ (CallerEof \/ CallerError)   \* ECONNABORTED with no reason attached
 ASSUME \A x \in 1..Len(Traces) : TLCSet(x, 0)
 Constr == TLCSet(tid, IF TLCGet(tid) > l THEN TLCGet(tid) ELSE l)
 Post == LET bad == {x \in 1..Len(Traces) : TLCGet(x) <= Len(Traces[x].events)} IN
